@@ -61,7 +61,7 @@ G1_VARIANTS = {
                       'steps': [('regen', ['build.ninja'], ['gen.in'], None), ('a', ['t1'], ['s'], b'p'), ('b', ['u'], ['s'], b'p')],
                       'default': [], 'pools': {b'p': 2}},
 }
-TARGETS = [[], ['t1'], ['t2'], ['./u'], ['nope']]
+TARGETS = [[], ['t1'], ['t2'], ['./u'], ['nope'], ['build.ninja']]
 FILENAMES = [None, b'./build.ninja']
 
 
